@@ -44,6 +44,11 @@ func main() {
 		rep.Paths, rep.Completed, rep.Aborted, rep.Stopped, rep.Queries, rep.Sat, rep.Unsat, rep.Unknown, rep.SolverTime, rep.Wall, rep.Steps, rep.Asserts, rep.TrivialAsserts)
 	for _, v := range rep.Violations {
 		fmt.Printf("VIOLATION [%s] %s %s\n", v.Kind, v.Label, v.Detail)
+		if os.Getenv("SHOWMODEL") != "" {
+			for _, in := range v.Inputs {
+				fmt.Printf("    %s(%s)=%d\n", in.Name, in.Tag, in.Val.Bits)
+			}
+		}
 	}
 	for _, e := range rep.EngineErrors {
 		fmt.Println("ENGINE:", e)
